@@ -62,7 +62,9 @@ func (k *Kernel) scheduleExit(p *proc) {
 	}
 	p.scheduled = true
 	p.inv.Stdin = string(p.stdin)
-	p.inv.Result = k.cfg.Tools.Run(p.inv.Argv, p.inv.Stdin)
+	if !p.killed {
+		p.inv.Result = k.cfg.Tools.Run(p.inv.Argv, p.inv.Stdin)
+	}
 	li := 0
 	if !k.cfg.NoPreempt {
 		li = k.src.Choose("lat", len(Latencies))
@@ -88,8 +90,29 @@ func (k *Kernel) doProcStdin(t *task, r *Req) {
 	}
 }
 
+// doProcKill: A = pid. A running process dies at once (killed by a signal, whatever it had
+// written is lost); a process that has exited already is not affected.
+func (k *Kernel) doProcKill(t *task, r *Req) {
+	if r.A < 1 || int(r.A) > len(k.procs) {
+		t.pending = Rep{Status: int64(syscall.ESRCH)}
+		return
+	}
+	p := k.procs[r.A-1]
+	k.trace(t, r.Op, fmt.Sprintf("p%d exited=%v", r.A, p.exited))
+	if !p.started || p.exited {
+		t.pending = Rep{Status: int64(syscall.ESRCH)}
+		return
+	}
+	p.killed = true
+	p.inv.Result = ToolResult{Signaled: true}
+	k.procExit(int(r.A))
+}
+
 func (k *Kernel) procExit(pid int) {
 	p := k.procs[pid-1]
+	if p.exited {
+		return // (killed earlier; this is its scheduled exit)
+	}
 	p.exited = true
 	p.inv.EndSeq = k.res.Steps
 	p.inv.EndTime = k.now
